@@ -139,6 +139,14 @@ type Two struct {
 	D []ext2.Pub
 	E ext.Level
 	F ext.Pt
+	G ext2.Pt
+}
+
+// Far holds a type of a package whose name (geo) is not the last element of
+// its import path (example.com/v/geo/v2).
+type Far struct {
+	S geo.Seg
+	L []*geo.Seg
 }
 
 // UEq and UEqV declare their own, deliberately non-structural, Equal and
@@ -219,6 +227,22 @@ type Pub struct {
 	N string
 	L []int
 }
+
+// Pt shares its printed name with the assignment-copyable ext.Pt of the
+// other package named ext, but holds references.
+type Pt struct {
+	P *int
+	Q []int
+}
+`
+
+// geoSrc lives at example.com/v/geo/v2 and declares package geo.
+const geoSrc = `package geo
+
+type Seg struct {
+	A int
+	B []string
+}
 `
 
 func structTys() []*Ty {
@@ -244,6 +268,9 @@ func structTys() []*Ty {
 		mk("ext2.Pub", false, "ext2"),
 		mk("ext.Pt", true, "ext"),
 		mk("Two", false, "ext", "ext2"),
+		mk("ext2.Pt", false, "ext2"),
+		mk("geo.Seg", false, "ext", "geo"),
+		mk("Far", false, "ext", "geo"),
 	}
 }
 
